@@ -17,7 +17,7 @@ func init() {
 	register(&Property{
 		ID:          "C13",
 		Engines:     []string{"cfg", "decide"},
-		Explanation: "WebSocket frame validation, structural part: the per-frame decision of validFrame composed with Parse's opcode switch, read off the branch conditions and compared with RFC 6455 §5.2/5.4/5.5 over all 1024 header combinations x compression setting (O1); the control-payload>125 and negative-64-bit-length rejections dominate frame acceptance (O2); a frame whose nextFrame failed reaches the error return before anything is copied (O3); UTF-8 / close-code / close-reason checks dominate the text and close handlers, each failing edge writes a 1002 close and closes, a message of type 0 is closed and never delivered (O4); validCloseCode's partition of all 65 536 codes (O5); every WebSocket read path tests Parse's error and fails the connection (O6); the default ping handler pongs its argument and the default close handler echoes the code (O7). CheckUtf8 is applied only to whole messages in the message handler (O8); validFrame's expecting-continuation input is the connection's own flag, which follows FIN (O9). Per-frame payload variables are assigned again on every way round the loop (O10). The state is kept whichever handlers are installed (O9).",
+		Explanation: "WebSocket frame validation, structural part: the per-frame decision of validFrame composed with Parse's opcode switch, read off the branch conditions and compared with RFC 6455 §5.2/5.4/5.5 over all 1024 header combinations x compression setting (O1); the control-payload>125 and negative-64-bit-length rejections dominate frame acceptance (O2); a frame whose nextFrame failed reaches the error return before anything is copied (O3); UTF-8 / close-code / close-reason checks dominate the text and close handlers, each failing edge writes a 1002 close and closes, a message of type 0 is closed and never delivered (O4); validCloseCode's partition of all 65 536 codes (O5); every WebSocket read path tests Parse's error and fails the connection (O6); the default ping handler pongs its argument and the default close handler echoes the code (O7). CheckUtf8 is applied only to whole messages in the message handler (O8); validFrame's expecting-continuation input is the connection's own flag, which follows FIN (O9). Per-frame payload variables are assigned again on every way round the loop (O10). The state is kept whichever handlers are installed (O9). Control frames are not counted against the message under assembly (O11); an empty compressed message does not dereference a nil buffer (O12); RSV1 only when negotiated and on the first frame of a data message (O1).",
 		NotCovered:  "'accepts everything valid' beyond the frame table; UTF-8 across fragment boundaries as values; segmentation",
 		Run:         runC13,
 	})
